@@ -1,9 +1,10 @@
 (* drv_rtcheck.ml — static-typed: does the annotated output of the typechecker model satisfy the
    run-time typing judgement (premise tc_annotations_typed of C01 / C02)?
-   topo-<async|sync>-<seed>: does every configuration of one model run satisfy the test of Topo
+   topo-<async|sync|np>-<seed>: does every configuration of one model run satisfy the test of Topo
    (premise topo_reachable)?
-   syn-premises: the computable premises prog_syn_ok / rt_syn_ok of the theorems that no longer assume
-   tc_annotations_typed (sound: syn_premises_sound). *)
+   syn-premises: the computable premises prog_syn_ok / raw_ok of the theorems that no longer assume
+   tc_annotations_typed (sound: syn_premises_sound; both are theorems for parsed programs, so the answer
+   SYN-OK on every accepted closed program is a cross-check of proofs/ParseSynOk.v, ParseRaw.v). *)
 open Registry
 open Model_rtcheck
 
@@ -42,4 +43,4 @@ let () =
               | Some (TR_bad (n, code)) -> Printf.sprintf "TOPO-BAD step=%d part=%d" (int_of_nat n) (int_of_nat code)
               | Some (TR_error n) -> Printf.sprintf "RT-ERROR step=%d" (int_of_nat n)))
         [0; 1; 2; 3])
-    [("async", Async); ("sync", Sync)]
+    [("async", Async); ("sync", Sync); ("np", NP)]
